@@ -127,6 +127,7 @@ def run(ctx):
     ctx.floor(r, len(entries), 9, "mutating entry points")
     r.notes.append("functions with a direct persistent write: %d; functions that may reach one: %d" % (len(direct), len(allm)))
     pair_cache = {}
+    direct_cache = {}
 
     def pairs_of(e):
         if e.id in pair_cache:
@@ -156,6 +157,7 @@ def run(ctx):
                     muts.append((bi, "direct:" + mirq.short_fn(decl), t.get("line")))
         fails = fail_sites(e)
         out = {}
+        direct = {}
         for mbi, mname, mline in muts:
             for fbi, forigin, fline in fails:
                 if mbi == fbi and not e.can_reach(mbi, mbi):
@@ -165,10 +167,15 @@ def run(ctx):
                 if forigin == mname and first_fail_of_call(e, mbi, fbi) and not e.can_reach(mbi, mbi):
                     continue
                 out.setdefault((mname, forigin), (mline, fline))
+                # does the failure follow the write without going round a loop (same iteration / straight line)?
+                if mbi != fbi and reach_forward(e, mbi, fbi) and not (forigin == mname and first_fail_of_call(e, mbi, fbi)):
+                    direct[(mname, forigin)] = True
         pair_cache[e.id] = out
+        direct_cache[e.id] = direct
         return out
 
     stop_rule(ctx, prog, allm)
+    seen_pairs = set()
     for e in sorted(entries, key=lambda b: b.id):
         ctx.functions_analysed.add(e.id)
         own = pairs_of(e)
@@ -193,6 +200,14 @@ def run(ctx):
             ctx.functions_analysed.add(bid)
             key = "%s|reaches-non-atomic:%s" % (e.id, bid)
             r.hit(key)
+            # each (write, later failure) pair of a reached body is a finding of its own: a new pair inside a body that is
+            # non-atomic already (a check moved behind a write) must not hide behind the body's existing entry
+            for (mname, forigin), (mline, fline) in sorted(ps.items()):
+                pk = "pair:%s|write:%s|then-fail:%s%s" % (bid, mname, forigin, "" if direct_cache.get(bid, {}).get((mname, forigin)) else "|next-iteration-only")
+                if pk not in seen_pairs:
+                    seen_pairs.add(pk)
+                    r.hit(pk)
+                    ctx.report(r, pk, "%s can fail (%s, line %s) after %s (line %s) may already have written persistent state" % (bid, forigin, fline, mname, mline), b.file, fline, {"body": bid, "write": mname, "fail": forigin})
             ex = sorted(ps.items())[0]
             ctx.report(r, key, "%s reaches %s, which can fail (%s) after a persistent write (%s): an error from it leaves the store changed (path: %s)" % (
                 e.id, bid, ex[0][1], ex[0][0], " -> ".join(mirq.short_fn(x) for x in prog.path_to(parent, bid)[-4:])), b.file, ex[1][1], {"entry": e.id, "write": ex[0][0], "fail": ex[0][1], "via": bid})
@@ -242,6 +257,21 @@ def stop_rule(ctx, prog, allm):
             if verdict != "ok":
                 ctx.report(r, "%s|%s" % (parent or bid, mirq.short_fn(decl or hit[0])), "%s calls %s, which may write persistent state, from inside a closure handed to .%s(..): the `?` of the enclosing function does not stop the batch at the first failure, so steps after a failed one still run and the store is changed further by a call that returns an error" % (parent or bid, mirq.short_fn(decl or hit[0]), verdict), b.file, line)
     ctx.floor(r, n, 150, "closure bodies examined")
+
+
+def reach_forward(b, a, c):
+    """is block c reachable from block a without traversing a loop back edge (an edge u->v where v dominates u)?"""
+    seen = set()
+    st = [x for x in b.succs(a) if not b.dominates(x, a)]
+    while st:
+        x = st.pop()
+        if x in seen:
+            continue
+        if x == c:
+            return True
+        seen.add(x)
+        st.extend(y for y in b.succs(x) if not b.dominates(y, x))
+    return False
 
 
 def holds_mut_ref(prog, ty):
